@@ -286,7 +286,7 @@ class Sim:
         pairs = {names[2 * i]: names[2 * i + 1] for i in range(k)}
         self.log.append(('reorder_to_pairs', pairs))
         self.B.reorder_to_pairs(self.b, pairs)
-        if k == 1:
+        if True:
             for x, y in pairs.items():
                 require(abs(self.b.vars[x] - self.b.vars[y]) == 1, 'reorder_to_pairs#post:adjacent',
                         lambda: f'{pairs} -> {self.b.vars}')
